@@ -27,17 +27,35 @@ pub fn main(args: &[String]) {
     let delay_ms: u64 = args[5].parse().unwrap();
     let grow: usize = args.get(6).map(|s| s.parse().unwrap()).unwrap_or(0);
     std::thread::sleep(std::time::Duration::from_millis(delay_ms));
-    logline(&mut log, format!("{} open-called {}", id, now()));
-    let r = catch_unwind(AssertUnwindSafe(|| OpenOptions::new().pagesize(pagesize).num_pages(16).open(&path)));
-    let db = match r {
-        Ok(Ok(db)) => db,
-        Ok(Err(e)) => {
-            logline(&mut log, format!("{} open-failed {} {}", id, now(), err_class(&e)));
-            return;
+    if std::env::var("JH_SIGNALS").is_ok() {
+        // a handled signal that does not restart system calls: a blocking lock call then returns EINTR
+        extern "C" fn noop(_: libc::c_int) {}
+        unsafe {
+            let mut sa: libc::sigaction = std::mem::zeroed();
+            sa.sa_sigaction = noop as usize;
+            sa.sa_flags = 0;
+            libc::sigemptyset(&mut sa.sa_mask);
+            libc::sigaction(libc::SIGUSR1, &sa, std::ptr::null_mut());
         }
-        Err(p) => {
-            logline(&mut log, format!("{} open-failed {} {}", id, now(), panic_class(&*p)));
-            return;
+    }
+    logline(&mut log, format!("{} open-called {}", id, now()));
+    let db = loop {
+        let r = catch_unwind(AssertUnwindSafe(|| OpenOptions::new().pagesize(pagesize).num_pages(16).open(&path)));
+        match r {
+            Ok(Ok(db)) => break db,
+            // an interrupted wait for the lock is a clean refusal: the caller tries again
+            Ok(Err(jammdb::Error::Io(ref e))) if e.kind() == std::io::ErrorKind::Interrupted => {
+                logline(&mut log, format!("{} open-interrupted {}", id, now()));
+                continue;
+            }
+            Ok(Err(e)) => {
+                logline(&mut log, format!("{} open-failed {} {}", id, now(), err_class(&e)));
+                return;
+            }
+            Err(p) => {
+                logline(&mut log, format!("{} open-failed {} {}", id, now(), panic_class(&*p)));
+                return;
+            }
         }
     };
     logline(&mut log, format!("{} open-returned {}", id, now()));
